@@ -26,6 +26,9 @@
 EXTENDS UlpiCommon, FiniteSets
 
 CONSTANTS WBound, TBound,
+          X1Addr, X1Reset, X2Addr, X2Reset,   \* extra registers (add_extra_register / platform): address (NoReg = unused)
+                                              \* and the PHY's reset value; requested values are c.x1 / c.x2
+          Startup,   \* the link must leave the bus alone for this many cycles after reset (records with RESETB)
           AgeCap     \* the age counters saturate here (0 in the exhaustive model, where liveness is checked temporally)
 
 VARIABLES qdir,     \* DIR of the previous cycle
@@ -35,18 +38,25 @@ VARIABLES qdir,     \* DIR of the previous cycle
           cand,     \* [a |-> set of values requested for a since the previous write to a completed]
           wrAge,    \* link-owned cycles since a mismatch is outstanding without a write completing
           txAge,    \* link-owned cycles tx_valid has been waiting for its TXCMD to be accepted
+          age0,     \* cycles since reset, saturating at Startup
           txOn,     \* the TXCMD of the current transmission was accepted
           lastWr,   \* ghost: [a, d, ok] last completed write and whether d was a requested value
           gin, gchk
 
-gvars == <<qdir, qphase, wcmd, wdata, phyReg, cand, wrAge, txAge, txOn, lastWr, gin, gchk>>
+gvars == <<qdir, qphase, wcmd, wdata, phyReg, cand, wrAge, txAge, age0, txOn, lastWr, gin, gchk>>
 
-Regs == {FunctionControlAddr, OtgControlAddr}
-Req(a, c) == IF a = FunctionControlAddr THEN FunctionControl(c) ELSE OtgControl(c)
+NoReg == 64
+Regs == {FunctionControlAddr, OtgControlAddr} \cup ({X1Addr, X2Addr} \ {NoReg})
+Req(a, c) == IF a = FunctionControlAddr THEN FunctionControl(c)
+             ELSE IF a = OtgControlAddr THEN OtgControl(c)
+             ELSE IF a = X1Addr THEN c.x1 ELSE c.x2
+ResetVal(a) == IF a = FunctionControlAddr THEN FunctionControlReset
+               ELSE IF a = OtgControlAddr THEN OtgControlReset
+               ELSE IF a = X1Addr THEN X1Reset ELSE X2Reset
 Mismatch(c, regs) == \E a \in Regs : Req(a, c) # regs[a]
 
 ResetCtrl == [xcvr |-> 1, term |-> 0, opm |-> 0, susp |-> 0, idpu |-> 0, dppd |-> 1, dmpd |-> 1,
-              dischrg |-> 0, chrg |-> 0, extvbus |-> 0]
+              dischrg |-> 0, chrg |-> 0, extvbus |-> 0, x1 |-> 0, x2 |-> 0]
 
 -----------------------------------------------------------------------------
 (* Env legality of i = [dir, nxt, txv, c] *)
@@ -59,7 +69,8 @@ Completes(i, o) == qphase = "rws" /\ i.dir = 0 /\ o.stp = 1
 WrA == RegAddr(wcmd)
 
 Failing(i, o) ==
-    IF qphase = "rws" /\ i.dir = 0 /\ o.stp # 1 THEN "regwrite_stp_missing"
+    IF age0 < Startup /\ (CmdKind(o.do) # 0 \/ o.stp = 1) THEN "bus_used_before_phy_ready"
+    ELSE IF qphase = "rws" /\ i.dir = 0 /\ o.stp # 1 THEN "regwrite_stp_missing"
     ELSE IF Completes(i, o) /\ WrA \notin Regs THEN "write_unknown_register"
     ELSE IF Completes(i, o) /\ wdata \notin (cand[WrA] \cup {Req(WrA, i.c)}) THEN "write_value_never_requested"
     ELSE IF wrAge > WBound THEN "register_not_converged"
@@ -70,9 +81,9 @@ NoGIn  == [dir |-> 0, nxt |-> 0, txv |-> 0, c |-> ResetCtrl]
 NoGOut == [do |-> 0, oe |-> 1, stp |-> 0]
 
 RegInit == /\ qdir = 0 /\ qphase = "idle" /\ wcmd = 0 /\ wdata = 0
-           /\ phyReg = [a \in Regs |-> IF a = FunctionControlAddr THEN FunctionControlReset ELSE OtgControlReset]
+           /\ phyReg = [a \in Regs |-> ResetVal(a)]
            /\ cand = [a \in Regs |-> {}]
-           /\ wrAge = 0 /\ txAge = 0 /\ txOn = FALSE
+           /\ wrAge = 0 /\ txAge = 0 /\ age0 = 0 /\ txOn = FALSE
            /\ lastWr = [a |-> 0, d |-> 0, ok |-> TRUE]
            /\ gin = NoGIn /\ gchk = "ok"
 
@@ -102,6 +113,7 @@ RegStep(i, o) ==
        /\ cand' = [a \in Regs |-> IF done /\ a = WrA THEN {Req(a, i.c)} ELSE cand[a] \cup {Req(a, i.c)}]
        /\ wrAge' = IF done \/ i.dir = 1 \/ ~Mismatch(i.c, regs1) THEN 0 ELSE Min(wrAge + 1, AgeCap)
        /\ txOn' = txOn1
+       /\ age0' = Min(age0 + 1, Startup)
        /\ txAge' = IF i.dir = 1 \/ i.txv = 0 \/ txOn1 THEN 0 ELSE Min(txAge + 1, AgeCap)
        /\ lastWr' = IF done THEN [a |-> WrA, d |-> wdata,
                                   ok |-> okA /\ wdata \in (cand[WrA] \cup {Req(WrA, i.c)})]
